@@ -4,9 +4,11 @@ import (
 	"fmt"
 	"go/ast"
 	"go/token"
+	"math"
 	"os"
 	"path/filepath"
 	"regexp"
+	"runtime"
 	"strings"
 )
 
@@ -86,6 +88,7 @@ func init() {
 		c19EmitOpsDesc(c, &sb, file)
 		c19EmitGlue(c, &sb)
 		c19EmitDocs(c, &sb)
+		c19EmitPlatform(&sb)
 		sb.WriteString("end Rare.Gen.C19\n")
 		return sb.String()
 	})
@@ -452,6 +455,36 @@ func c19EmitGlue(c *Ctx, sb *strings.Builder) {
 }
 
 var c19Span = regexp.MustCompile("`([^`]*)`")
+
+// Round 4b: the platform the logarithms of `uniOps` (`math.Log`, `math.Log10`, `math.Log2`) run on, as seen by the
+// toolchain this extractor and the harness are built with: GOARCH, and the values of the three functions at
+// probe arguments (subnormals – where the amd64 assembly routine differs from the portable code –, the
+// rescaling boundary sqrt(2)/2, powers of two and of ten, the extremes of the range, the special values).
+// Props/C19.lean `log_platform` evaluates the model at the same arguments in the kernel.
+func c19EmitPlatform(sb *strings.Builder) {
+	fmt.Fprintf(sb, "/-- GOARCH of the toolchain (`math.Log` is `log_amd64.s` on amd64) -/\ndef goarch : String := %q\n\n", runtime.GOARCH)
+	// (kept short: every probe costs the kernel about 1.5 s in Props/C19.lean)
+	args := []uint64{1, 1 << 51, 1<<52 - 1, 1 << 52, math.Float64bits(math.Sqrt2 / 2),
+		math.Float64bits(math.Sqrt2/2) + 1, math.Float64bits(math.Sqrt2/2) - 1, math.Float64bits(1) + 1, math.Float64bits(1) - 1,
+		math.Float64bits(3), math.Float64bits(10), math.Float64bits(1e15), math.Float64bits(0.1), math.Float64bits(math.MaxFloat64),
+		0, 1 << 63, math.Float64bits(1), math.Float64bits(-1), math.Float64bits(math.Inf(1)), math.Float64bits(math.Inf(-1)), 0x7ff8000000000001}
+	canon := func(v float64) uint64 {
+		if v != v {
+			return 0x7ff8000000000001 // any NaN: the model's canonical one
+		}
+		return math.Float64bits(v)
+	}
+	sb.WriteString("/-- (argument bits, math.Log, math.Log10, math.Log2) computed by the toolchain; NaN results canonical -/\n")
+	sb.WriteString("def logProbes : List (Nat × Nat × Nat × Nat) := [")
+	for i, a := range args {
+		if i > 0 {
+			sb.WriteString(", ")
+		}
+		x := math.Float64frombits(a)
+		fmt.Fprintf(sb, "(%d, %d, %d, %d)", a, canon(math.Log(x)), canon(math.Log10(x)), canon(math.Log2(x)))
+	}
+	sb.WriteString("]\n\n")
+}
 
 // docs/usage/math.md: the operator tables (every back-quoted span of the rows under `### Binary` /
 // `### Unary`, split at blanks), the examples `{! f} => v` with the binding of the sentence above
